@@ -229,11 +229,16 @@ pub fn universal_bytes<const LEN: usize>() {
 /// Every accepted IA5 text of N ASCII bytes placed in each IA5-typed alternative name is
 /// serialised by the real SAN writer without panic, under the variant's tag, byte for byte.
 pub fn ia5_in_san<const N: usize>(which: u8) {
+    // IA5 texts are ASCII (the constructor's acceptance set is the subject of the ia5 text queries): the bytes are assumed ASCII up
+    // front, which spares the symbolic UTF-8 validation of String::from_utf8.
     let a: [u8; N] = kani::any();
-    let s = match String::from_utf8(a.to_vec()) {
-        Ok(s) => s,
-        Err(_) => return,
-    };
+    let mut i = 0;
+    while i < N {
+        kani::assume(a[i] < 0x80);
+        i += 1;
+    }
+    // SAFETY: ASCII bytes are valid UTF-8.
+    let s = unsafe { String::from_utf8_unchecked(a.to_vec()) };
     let v = match Ia5String::try_from(s) {
         Ok(v) => v,
         Err(_) => return,
